@@ -70,7 +70,10 @@ type Exec struct {
 
 	cellFuncs       map[string]*FuncInfo
 	calledContracts map[*Contract]bool
+	beforeHit       map[string]bool // `before CALLEE` keys that matched at least one call site
 	returnReach     []string
+	backReach       []string // reach condition of every loop back edge (top-level function), for the vacuity cover
+	backPos         []string
 	returnPos       []string
 	coverAcc        map[string][]string
 	spawnsAllowed   bool
